@@ -34,7 +34,7 @@ func c15GenNQDoc(r *hx.Rand, nq bool) []byte {
 		}
 		ln = strings.TrimSuffix(ln, " .")
 		ln = strings.Replace(ln, " ", hx.Pick(r, []string{" ", "\t", "  "}), 1)
-		sb.WriteString(ln + hx.Pick(r, []string{" .", ".", " . # trailing", "\t."}))
+		sb.WriteString(ln + hx.Pick(r, []string{" .", ".", " . # trailing", "\t.", " # before the dot\n.", "#c\r\n ."}))
 		if i < len(lines)-1 || r.Chance(2, 3) {
 			sb.WriteString(hx.Pick(r, []string{"\n", "\n", "\r\n", "\n\n"}))
 		}
@@ -42,11 +42,33 @@ func c15GenNQDoc(r *hx.Rand, nq bool) []byte {
 	return []byte(sb.String())
 }
 
+// preamble (all directives) of the last generated Turtle/TriG document
+var c15LastPreamble string
+
 func c15Doc(r *hx.Rand, name string) ([]byte, string) {
 	switch name {
 	case "ntriples", "nquads":
 		if r.Chance(3, 4) {
 			return c15GenNQDoc(r, name == "nquads"), "generated"
+		}
+	}
+	switch name {
+	case "turtle", "trig":
+		if r.Chance(1, 3) {
+			base := ""
+			if r.Bool() {
+				base = "http://example.org/dir/doc"
+			}
+			d, _, _, pre := genTurtleDocPre(r, name == "trig", base, 4, true)
+			if base != "" { // the caller may decode without a base: make the document self-contained
+				d, pre = "@base <"+base+"> .\n"+d, "@base <"+base+"> .\n"+pre
+			}
+			c15LastPreamble = pre
+			return []byte(d), "generated"
+		}
+	default:
+		if r.Chance(1, 3) {
+			return genStructured(r, name), "structured"
 		}
 	}
 	var pool []seedFile
@@ -85,16 +107,15 @@ func stmtLines(res zooResult) []string {
 	return out
 }
 
-// isPrefixUpToLast: a (minus at most its last element when lastMayDiffer) is a prefix of b
+// isPrefixOf: a is a prefix of b, except that (dropLast) the statements stemming from the token that was cut may
+// differ: the cut token can end a term early ("+0." of "+0.0") and the rune after it can already have been taken as
+// the start of the next production (a list link), so the last two positions are exempt.
 func isPrefixOf(a, b []string, dropLast bool) bool {
-	if dropLast && len(a) > 0 {
-		a = a[:len(a)-1]
-	}
-	if len(a) > len(b) {
-		return false
-	}
 	for i := range a {
-		if a[i] != b[i] {
+		if dropLast && i >= len(a)-2 {
+			continue
+		}
+		if i >= len(b) || a[i] != b[i] {
 			return false
 		}
 	}
@@ -175,6 +196,9 @@ func c15Stream(r *hx.Rand, n int, out *hx.Out, _ []string) {
 							oracle = fmt.Sprintf("cut at %d: clean end, but the %d statements are not a prefix of the document's", i, len(lines))
 						}
 						ext := zooRun(name, append(append([]byte{}, p...), c15Appendix[name]...), base)
+						if ext.verdict == "ok" && len(ext.quads) == len(res.quads)+1 && ext.quads[len(ext.quads)-1].GraphName != nil {
+							oracle = fmt.Sprintf("cut at %d: the decoder reports a clean end inside a graph block (an appended statement lands in graph %v)", i, ext.quads[len(ext.quads)-1].GraphName)
+						}
 						if ext.verdict != "ok" || len(ext.quads) != len(res.quads)+1 {
 							oracle = fmt.Sprintf("cut at %d: the decoder reports a clean end inside a statement (appending a statement gives %s with %d statements, expected %d)", i, ext.verdict, len(ext.quads), len(res.quads)+1)
 						}
